@@ -97,6 +97,27 @@ impl Layout {
         l
     }
 
+    /// the same layout with steps / padding reduced until the enclosing allocation has at
+    /// most `max_elems` elements (high-rank arrays would otherwise explode)
+    pub fn fitted(&self, shape: &[usize], max_elems: usize) -> Layout {
+        let mut l = self.clone();
+        let total = |l: &Layout| l.ext(shape).iter().fold(1usize, |a, &b| a.saturating_mul(b.max(1)));
+        let mut ax = 0;
+        let mut guard = 0;
+        while total(&l) > max_elems && guard < 10 * shape.len().max(1) {
+            let a = ax % shape.len().max(1);
+            if l.pad_lo[a] + l.pad_hi[a] > 0 {
+                l.pad_lo[a] = 0;
+                l.pad_hi[a] = 0;
+            } else if l.step[a] > 1 {
+                l.step[a] = 1;
+            }
+            ax += 1;
+            guard += 1;
+        }
+        l
+    }
+
     fn ext(&self, shape: &[usize]) -> Vec<usize> {
         shape
             .iter()
@@ -161,6 +182,8 @@ impl<T: Clone> Mat<T> {
 
     /// base filled with `fill`, logical window not assigned
     pub fn blank(shape: &[usize], lay: &Layout, fill: impl Fn(u64) -> T) -> Self {
+        let cap = if cfg!(miri) { 1 << 12 } else { 1 << 20 };
+        let lay = &lay.fitted(shape, cap);
         let ext = lay.ext(shape);
         let base_shape: Vec<usize> = lay.perm.iter().map(|&l| ext[l]).collect();
         let n: usize = base_shape.iter().product();
